@@ -162,6 +162,12 @@ type runnablePipeline struct {
 	t                *tomb.Tomb
 	backoff          *backoff.Backoff
 	recoveryAttempts *atomic.Int64
+
+	// intentionalStop is set when a user asked for this run to stop
+	// gracefully. A transient error that ends the run while it drains must
+	// then not be mistaken for a spontaneous failure and answered with an
+	// automatic restart. Mirrors pkg/lifecycle-poc.
+	intentionalStop atomic.Bool
 }
 
 // ConnectorService can fetch and create a connector instance, and report when
@@ -361,7 +367,15 @@ func (s *Service) Stop(ctx context.Context, pipelineID string, force bool) error
 
 	switch force {
 	case false:
-		return s.stopGraceful(ctx, rp, nil)
+		// mark the run before any node starts stopping, so the cleanup
+		// goroutine sees it however fast the drain is; take it back if no
+		// stop was actually triggered
+		alreadyStopping := rp.intentionalStop.Swap(true)
+		err := s.stopGraceful(ctx, rp, nil)
+		if err != nil && !alreadyStopping {
+			rp.intentionalStop.Store(false)
+		}
+		return err
 	case true:
 		return s.stopForceful(ctx, rp)
 	}
@@ -1007,6 +1021,13 @@ func (s *Service) runPipeline(ctx context.Context, rp *runnablePipeline) error {
 				// we use %+v to get the stack trace too
 				if err := s.pipelines.UpdateStatus(ctx, rp.pipeline.ID, pipeline.StatusDegraded, fmt.Sprintf("%+v", err)); err != nil {
 					return err
+				}
+			} else if rp.intentionalStop.Load() {
+				// the user asked for this run to stop: an error while it was
+				// draining does not bring it back
+				err = nil
+				if updateErr := s.pipelines.UpdateStatus(ctx, rp.pipeline.ID, pipeline.StatusUserStopped, ""); updateErr != nil {
+					return updateErr
 				}
 			} else if s.isShuttingDown() {
 				// the server is shutting down: do not restart, the pipeline
